@@ -94,7 +94,8 @@ fn hex(s: &str) -> String {
 
 /// Apply edits to src[start..end]; produce marked text + chunk map.
 pub fn apply_edits(src: &str, start: usize, end: usize, edits: &mut Vec<Edit>) -> Woven {
-    edits.sort_by(|a, b| (a.start, a.prio, a.seq).cmp(&(b.start, b.prio, b.seq)));
+    // at one position: zero-length insertions first (by priority), then the edit that replaces a range
+    edits.sort_by(|a, b| (a.start, (a.end > a.start) as u8, a.prio, a.seq).cmp(&(b.start, (b.end > b.start) as u8, b.prio, b.seq)));
     let mut out = String::new();
     let mut chunks = vec![];
     let mut pos = start;
